@@ -583,9 +583,11 @@ class ISD(model.Document):
 
         isd_element.set_style(initial_style, initial_value)
 
-    # compute style properties
+    # compute style properties, except for br elements, to which no style property applies, which
+    # have no children that could inherit from them and lack the font size that relative lengths need
 
-    ISD._compute_styles(styles_to_be_computed, parent, isd_element)
+    if not isinstance(element, model.Br):
+      ISD._compute_styles(styles_to_be_computed, parent, isd_element)
 
     # prune element is display is "none"
 
